@@ -1,0 +1,11 @@
+//go:build verif
+
+// Verification hooks (build tag verif) for property C07: the package's unexported scale table of the scaled integer
+// coding (AppendInt64WithScale / DecodeInt64WithScale), so that the Coq model's table is regenerated from the code on
+// every check. No behaviour.
+package codec
+
+// VerifScales returns the scale table in index order.
+func VerifScales() []int64 {
+	return append([]int64{}, scales[:]...)
+}
